@@ -83,6 +83,7 @@ def handle (line : String) : String :=
   if line.startsWith "#" then "skip" else
   match words line with
   | ["dp", closed, eps, pts, tab] => handleDp closed eps pts tab
+  | ["dp", closed, eps, pts, tab, _] => handleDp closed eps pts tab
   | ["hull", es] => handleHull es
   | ["hull", es, _] => handleHull es
   | _ => "bad-request"
